@@ -1,6 +1,7 @@
 package main
 
 import (
+	"encoding/json"
 	"fmt"
 	"os"
 	"path/filepath"
@@ -47,6 +48,13 @@ func main() {
 			fmt.Println(err)
 			os.Exit(2)
 		}
+		fmt.Println(string(b))
+	case "sweep":
+		if len(os.Args) < 3 {
+			usage()
+		}
+		r := sweep(os.Args[2], verifDir(), 0, nil)
+		b, _ := json.MarshalIndent(r, "", " ")
 		fmt.Println(string(b))
 	case "list":
 		fmt.Println(strings.Join(rules.IDs(), " "))
@@ -127,8 +135,19 @@ func check(args []string) (code int) {
 		}
 		t0 := time.Now().Add(-loadDur)
 		var ctxs []*core.Ctx
+		var skipped []string
 		panicked := false
 		for _, a := range archs {
+			skip := ""
+			for _, need := range rules.Needs[id] {
+				if why, dropped := worlds[a].Dropped[need]; dropped {
+					skip = fmt.Sprintf("configuration linux/%s skipped: package %s does not type-check there (%s)", a, need, why)
+				}
+			}
+			if skip != "" {
+				skipped = append(skipped, skip)
+				continue
+			}
 			c := core.NewCtx(worlds[a], id, tier)
 			func() {
 				defer func() {
@@ -146,8 +165,17 @@ func check(args []string) (code int) {
 			continue
 		}
 		extra := map[string]any{}
+		if len(skipped) > 0 {
+			extra["configs_skipped"] = skipped
+		}
 		if tier == "thorough" {
-			thorough(id, vd, extra)
+			fs := map[string]bool{}
+			for _, cx := range ctxs {
+				for f := range cx.Funcs {
+					fs[f] = true
+				}
+			}
+			thorough(id, vd, extra, fs)
 		}
 		out := vd
 		if o := os.Getenv("VERIF_OUT"); o != "" {
